@@ -388,6 +388,10 @@ func verifMsgKind(args []Value, err error, exception interface{}) string {
 '''
 
 
+# the call in Thread.end that runs the pending to-be-closed handlers (its name changed once already)
+CLEANUP_RE = r"err = t\.\w*[cC]lose\w*\("
+
+
 def func_span(src, name):
     m = re.search(r"^func \(t \*Thread\) %s\(.*$" % re.escape(name), src, re.M)
     if not m:
@@ -400,6 +404,8 @@ def ins(body, pattern, code, where, occurrence=1, fn=""):
     """insert the statement `code` before/after the occurrence-th line matching pattern"""
     lines = body.split("\n")
     seen = 0
+    if occurrence == -1:      # the last occurrence (the main path; earlier ones are early-exit branches)
+        occurrence = sum(1 for l in lines if re.search(pattern, l))
     for i, l in enumerate(lines):
         if re.search(pattern, l):
             seen += 1
@@ -430,7 +436,7 @@ def instrument_thread_go(src):
             b = ins(b, r"^\s*t\.mux\.Lock\(\)", 'veriftrace("s1"); veriftrace("s2")', "after", 1, name)
             b = ins(b, r"^\s*caller\.mux\.Lock\(\)", 'veriftrace("s3")', "after", 1, name)
             b = ins(b, r"^\s*t\.caller = caller", 'veriftrace("s4")', "before", 1, name)
-            b = ins(b, r"^\s*t\.mux\.Unlock\(\)", 'veriftrace("s5")', "before", 2, name)
+            b = ins(b, r"^\s*t\.mux\.Unlock\(\)", 'veriftrace("s5")', "before", -1, name)
             b = ins(b, r"^\s*caller\.mux\.Unlock\(\)", 'veriftrace("s6")', "before", 1, name)
             b = ins(b, r"^\s*t\.sendResumeValues\(", 'veriftrace("D")', "before", 1, name)
             return b
@@ -444,7 +450,7 @@ def instrument_thread_go(src):
         b = ins(b, r"^\s*t\.mux\.Lock\(\)", 'veriftrace("s11"); veriftrace("s12")', "after", 1, "Yield")
         b = ins(b, r"^\s*caller\.mux\.Lock\(\)", 'veriftrace("s13")', "after", 1, "Yield")
         b = ins(b, r"^\s*t\.status = ThreadSuspended", 'veriftrace("s14")', "before", 1, "Yield")
-        b = ins(b, r"^\s*t\.mux\.Unlock\(\)", 'veriftrace("s15")', "before", 2, "Yield")
+        b = ins(b, r"^\s*t\.mux\.Unlock\(\)", 'veriftrace("s15")', "before", -1, "Yield")
         b = ins(b, r"^\s*caller\.mux\.Unlock\(\)", 'veriftrace("s16")', "before", 1, "Yield")
         b = ins(b, r"^\s*caller\.sendResumeValues\(", 'veriftrace("D")', "before", 1, "Yield")
         return b
@@ -456,7 +462,7 @@ def instrument_thread_go(src):
         def idx(pat):
             return next((i for i, l in enumerate(lines) if re.search(pat, l)), None)
         send, rel = idx(r"caller\.sendResumeValues\("), idx(r"t\.ReleaseBytes\(")
-        lock, clean = idx(r"^\s*t\.mux\.Lock\(\)"), idx(r"err = t\.cleanupCloseStack\(")
+        lock, clean = idx(r"^\s*t\.mux\.Lock\(\)"), idx(CLEANUP_RE)
         if send is None or lock is None or clean is None:
             raise ValueError("end: send / lock / cleanupCloseStack not found")
         b = ins(b, r"^\s*caller := t\.caller", 'veriftrace("F" + verifMsgKind(args, err, exception)); veriftrace("s20")', "before", 1, "end")
@@ -465,7 +471,7 @@ def instrument_thread_go(src):
             b = ins(b, r"^\s*t\.mux\.Lock\(\)", 'veriftrace("HD" + verifMsgKind(args, err, exception))', "before", 1, "end")
         else:
             # handlers inside the locked section (old code): action 25 after they ran
-            b = ins(b, r"^\s*err = t\.cleanupCloseStack\(", 'veriftrace("s25")', "after", 1, "end")
+            b = ins(b, CLEANUP_RE, 'veriftrace("s25")', "after", 1, "end")
         b = ins(b, r"^\s*t\.mux\.Lock\(\)", 'veriftrace("s21")', "after", 1, "end")
         b = ins(b, r"^\s*caller\.mux\.Lock\(\)", 'veriftrace("s22")', "after", 1, "end")
         b = ins(b, r"^\s*defer t\.mux\.Unlock\(\)", 'defer func() { veriftrace("s30"); t.mux.Unlock() }()', "replace", 1, "end")
@@ -644,7 +650,7 @@ def run(tier, seed):
             bad = "deadlock"
         elif len(f) > 1 and f[1] == "CRASH":
             bad = "crash"
-        elif ex is not None and not " ".join(f[1:]).startswith(ex):
+        elif ex is not None and not any(" ".join(f[1:]).startswith(x.strip()) for x in ex.split(" || ")):
             bad = "wrong-result"
         elif ("G:%d" % g) not in f:
             bad = "goroutines-left"
@@ -709,11 +715,38 @@ def run(tier, seed):
     nprobe = min(len(glines), 360)
     impl = par_resilient(gvt, ["script"], glines[:nprobe], workers=12, per_case_timeout=20)
     nbad = sum(1 for o in impl if o.split(" ")[1:2] in (["HANG"], ["CRASH"]))
-    if nbad > 5:
-        ck.log("(a) %d of the first %d scripts hang/crash: skipping the remaining scripts" % (nbad, nprobe))
+    # ... and likewise when goroutines are left behind on many scripts: every such case costs a settling wait
+    # (gvh-thread caps the total at 20 s per process, after which it no longer waits)
+    nleak = 0
+    for j, o in enumerate(impl):
+        g = norm_go(o)
+        if g is not None and g[3] != norm_model(model[j])[3]:
+            nleak += 1
+    if nbad > 5 or nleak > 5:
+        ck.log("(a) of the first %d scripts %d hang/crash and %d leave goroutines behind: skipping the remaining scripts" % (nprobe, nbad, nleak))
         scripts, sources, model = scripts[:nprobe], sources[:nprobe], model[:nprobe]
     else:
         impl += par_resilient(gvt, ["script"], glines[nprobe:], per_case_timeout=20)
+    # a sample again with a message handler installed in the ROOT context the way the golua CLI does
+    # (Runtime.PushContext: no owning thread): an error inside a coroutine must still reach its resumer as the
+    # value raised; only an error that reaches the top of the main thread may go through that handler
+    rsel = [i for i in range(len(scripts)) if i < ncorpus or i % 13 == 0][:700]
+    rimpl = par_resilient(gvt, ["script"], [glines[i] + " rooth=1" for i in rsel], per_case_timeout=20)
+    nroot = 0
+    for j, i in enumerate(rsel):
+        g = norm_go(rimpl[j]) if j < len(rimpl) else None
+        m = norm_model(model[i])
+        ck.count("root-handler-runs")
+        if g is None or (g[0], g[1]) != (m[0], m[1]) or (m[0] != "error" and g[2] != m[2]):
+            nroot += 1
+            if nroot <= 2:
+                ck.violation("with a message handler in the root context (as the golua command installs it) a coroutine script no longer "
+                             "behaves as the coroutine semantics says: the handler is applied to errors inside coroutines",
+                             {"kind": "Go!=S", "engine": "thread", "script": ";".join(scripts[i][0]), "tbc": scripts[i][1], "root_handler": True,
+                              "lua": sources[i], "impl": rimpl[j] if j < len(rimpl) else None, "model": model[i],
+                              "theorems": ["C09_S_die_keeps_delivered_error"]})
+    ck.cov["root_handler_runs"] = len(rsel)
+    ck.cov["root_handler_differences"] = nroot
     ndiff = 0
     gleft = 0
     for i, (sc, tbc) in enumerate(scripts):
